@@ -177,11 +177,12 @@ pub fn sum_publish_data(d: &poster::PublishData) -> Value {
         "t": "PUBLISH", "id": 0, "qos": d.qos() as u8, "dup": d.dup() as u8, "retain": d.retain() as u8,
         "rc": 0, "sids": [], "tag": String::from_utf8_lossy(&topic), "len": 0,
         "x": mqtt::content_digest(&p, &topic, d.payload()),
+        "pd": mqtt::digest_bytes(d.payload()),
     })
 }
 
 pub fn empty_abs() -> Value {
-    json!({"t": "NONE", "id": 0, "qos": 0, "dup": 0, "retain": 0, "rc": 0, "sids": [], "tag": "", "len": 0, "x": ""})
+    json!({"t": "NONE", "id": 0, "qos": 0, "dup": 0, "retain": 0, "rc": 0, "sids": [], "tag": "", "len": 0, "x": "", "pd": ""})
 }
 
 fn panic_msg(p: Box<dyn std::any::Any + Send>) -> String {
@@ -232,6 +233,7 @@ pub struct Sim {
     cmds: Arc<Mutex<VecDeque<Cmd>>>,
     results: Arc<Mutex<Vec<Value>>>,
     pub handles: Vec<Option<ContextHandle>>,
+    pub recycled: Recycled,
     ops: BTreeMap<usize, OpTask>,
     streams: BTreeMap<usize, StTask>,
     pub trace: Vec<String>,
@@ -306,6 +308,7 @@ impl Sim {
             cmds,
             results,
             handles: vec![Some(handle)],
+            recycled: Arc::new(Mutex::new(std::collections::HashMap::new())),
             ops: BTreeMap::new(),
             streams: BTreeMap::new(),
             trace: vec![],
@@ -511,7 +514,12 @@ impl Sim {
     // handles and operations
 
     pub fn clone_handle(&mut self, from: usize) -> Option<usize> {
-        let h = self.handles.get(from)?.as_ref()?.clone();
+        let base = self.handles.get(from)?.as_ref()?;
+        // (clone the handle object that has already done work on this slot, if any: clones inherit whatever a handle carries)
+        let h = match self.recycled.lock().unwrap().get(&from) {
+            Some(used) => used.clone(),
+            None => base.clone(),
+        };
         self.handles.push(Some(h));
         let i = self.handles.len() - 1;
         self.emit(json!({"e": "clone", "h": i, "from": from}));
@@ -521,6 +529,7 @@ impl Sim {
     pub fn drop_handle(&mut self, h: usize) {
         if let Some(slot) = self.handles.get_mut(h) {
             if slot.take().is_some() {
+                self.recycled.lock().unwrap().remove(&h);
                 self.emit(json!({"e": "drop", "task": "h", "k": h}));
             }
         }
@@ -529,11 +538,14 @@ impl Sim {
     /// Creates the future of one handle operation (not polled yet).
     pub fn call(&mut self, k: usize, h: usize, spec: &Value) -> bool {
         let handle = match self.handles.get(h).and_then(|x| x.as_ref()) {
-            Some(x) => x.clone(),
+            Some(x) => match self.recycled.lock().unwrap().remove(&h) {
+                Some(used) => used,
+                None => x.clone(),
+            },
             None => return false,
         };
         let kind = spec["kind"].as_str().unwrap_or("").to_string();
-        let fut = make_op(handle, spec.clone());
+        let fut = make_op(handle, spec.clone(), h, self.recycled.clone());
         self.ops.insert(k, OpTask { fut: Some(fut), flag: Flag::new(true), polled: false, kind: kind.clone() });
         let mut line = call_line(spec);
         line["e"] = json!("call");
@@ -567,6 +579,14 @@ impl Sim {
         let waker = Waker::from(t.flag.clone());
         let mut cx = TaskCx::from_waker(&waker);
         let r = catch_unwind(AssertUnwindSafe(|| fut.as_mut().poll(&mut cx)));
+        {
+            // a handle handed back for a slot whose handle has been dropped meanwhile is dropped as well
+            let mut rc = self.recycled.lock().unwrap();
+            let dead: Vec<usize> = rc.keys().cloned().filter(|h| self.handles.get(*h).map(|x| x.is_none()).unwrap_or(true)).collect();
+            for h in dead {
+                rc.remove(&h);
+            }
+        }
         let res = match r {
             Ok(Poll::Pending) => res_rec("pending", "", 0, ""),
             Ok(Poll::Ready(OpOut::Done(v))) => {
@@ -899,9 +919,21 @@ pub fn err_accessors(e: &MqttError) -> Value {
 
 /// Builds the boxed future of one handle operation. Options are built inside the future, on
 /// its first poll, exactly as `handle.publish(opts).await` does in user code.
-fn make_op(handle: ContextHandle, spec: Value) -> Pin<Box<dyn Future<Output = OpOut>>> {
+/// Handles that have finished an operation, by handle slot: the next operation started on that slot uses the very same
+/// handle object again (a handle may carry state of its own from one operation to the next), not a fresh clone.
+pub type Recycled = Arc<Mutex<std::collections::HashMap<usize, ContextHandle>>>;
+
+fn make_op(handle: ContextHandle, spec: Value, slot: usize, recycled: Recycled) -> Pin<Box<dyn Future<Output = OpOut>>> {
     Box::pin(async move {
         let mut h = handle;
+        let out = op_body(&mut h, spec).await;
+        recycled.lock().unwrap().insert(slot, h);
+        out
+    })
+}
+
+async fn op_body(h: &mut ContextHandle, spec: Value) -> OpOut {
+    {
         let kind = spec["kind"].as_str().unwrap_or("").to_string();
         let full = spec["acc"].as_bool().unwrap_or(false);
         let fin = |r: Result<(), MqttError>| -> OpOut {
@@ -973,5 +1005,5 @@ fn make_op(handle: ContextHandle, spec: Value) -> Pin<Box<dyn Future<Output = Op
             }
             _ => OpOut::Done(res_rec("err", "BadSpec", 0, "")),
         }
-    })
+    }
 }
